@@ -80,7 +80,11 @@ Cl_LawAtOwnComposition == (E.ev = "End" /\ E.outcome = "return" /\ E.hasOwn /\ F
                            /\ (E.hasL => FLt(E.L, Lit("0.9")))          \* contractive also where the iteration stopped
                            /\ Fin2(E.J) /\ Fin2(E.ppY) /\ Fin2(E.dppY) /\ Fin2(O.pf)) =>
                           (OwnAt(E.ppY) \/ OwnAt(E.ppYmolar))
-Cl_SelfConsistent == (E.ev = "End" /\ E.outcome = "return" /\ E.hasL /\ FLt(E.L, Lit("0.9"))) =>
+\* |Y(J) - y_n| = |g(y_n) - g(y_n-1)| <= L |y_n - y_n-1| < L precision, L the largest slope BETWEEN the last two iterates.  The slope
+\* is measured at the stopping point; with a coarse precision and a strongly curved map it is larger a precision away (1.08 against
+\* 0.95 met at precision 1e-3), so up to 0.97 is accepted only for fine precisions, where the two points all but coincide
+ContractiveAtStop == FLt(E.L, Lit("0.9")) \/ (FLe(O.prec, Lit("1e-6")) /\ FLt(E.L, Lit("0.97")))
+Cl_SelfConsistent == (E.ev = "End" /\ E.outcome = "return" /\ E.hasL /\ ContractiveAtStop) =>
                        FLe(FAbs(FSub(S!Y(E.J), Pre.y)), FAdd(O.prec, Near(O.prec)))
 Cl_VacuumExact == (E.ev = "End" /\ E.outcome = "return" /\ (O.mode \in {"vac", "press0"})) =>
                        /\ EqX(E.J[1], FMul(O.P1, O.pf[1]), E.J[1]) /\ EqX(E.J[2], FMul(O.P2, O.pf[2]), E.J[2])
